@@ -157,3 +157,14 @@ Proof.
   revert i. induction l as [|x l IH]; simpl; intros i; [reflexivity|].
   destruct i; simpl; auto.
 Qed.
+
+(* [0; 1; ...; n-1] *)
+Fixpoint seqn (n : nat) : list nat := match n with 0 => [] | S n' => seqn n' ++ [n'] end.
+
+Lemma In_seqn j n : In j (seqn n) <-> j < n.
+Proof.
+  induction n as [|n IH]; simpl; [split; [intros []|lia]|].
+  rewrite in_app_iff, IH. simpl. lia.
+Qed.
+
+Definition tab_get_nat (l : list (list nat)) : nat -> list nat := fun i => nth i l [].
